@@ -1,0 +1,20 @@
+//go:build verif
+
+package cache
+
+import "time"
+
+// VerifLRU exposes the LRU cache under the search cache.
+func (sc *SearchCache) VerifLRU() *LRUCache { return sc.cache }
+
+// VerifAdvance makes every entry d older (virtual time): it subtracts d from
+// the timestamps of all entries under the cache's own lock.
+func (c *LRUCache) VerifAdvance(d time.Duration) {
+	c.mu.Lock()
+	defer c.mu.Unlock()
+	for e := c.evictList.Front(); e != nil; e = e.Next() {
+		en := e.Value.(*Entry)
+		en.CreatedAt = en.CreatedAt.Add(-d)
+		en.AccessedAt = en.AccessedAt.Add(-d)
+	}
+}
